@@ -135,12 +135,12 @@ static std::vector<Plan> genUdpPlans(vf::Rng &r, Run &H, int n)
 {
   std::vector<Plan> out;
   std::vector<std::pair<int, double>> kinds = {{K_U_IN, 30}, {K_U_OUT, 20}, {K_U_VIA, 18}, {K_U_FAIL_RESOLVE, 8}, {K_U_FAIL_VIA_NOLISTENER, 6},
-                                               {K_U_FAIL_VIA_AF, 6}, {K_U_ICMP, 8}, {K_U_FAIL_CONNECT, 5}};
+                                               {K_U_FAIL_VIA_AF, 6}, {K_U_ICMP, 8}, {K_U_FAIL_CONNECT, 5}, {K_U_SHARED_PEER, 14}};
   for (int i = 0; i < n; i++)
   {
     Plan p; p.kind = pickW(r, kinds);
     double est = 120;
-    if (p.kind == K_U_IN || p.kind == K_U_OUT || p.kind == K_U_VIA)
+    if (p.kind == K_U_IN || p.kind == K_U_OUT || p.kind == K_U_VIA || p.kind == K_U_SHARED_PEER)
     {
       std::vector<std::pair<int, double>> ends = {{E_APP, 55}, {E_STOP, 20}};
       if (H.idleGcCfg) ends.push_back({E_IDLE, 40});
